@@ -307,6 +307,8 @@ class FileStoreRequestBase:
             is the first file name, the second value is the status code as an integer,
             the third value is the length of the full TLV packet
         """
+        if len(raw_bytes) < 1:
+            raise BytesTooShortError(1, len(raw_bytes))
         value_idx = 0
         action_code_as_int = (raw_bytes[value_idx] >> 4) & 0x0F
         try:
@@ -390,6 +392,8 @@ class FileStoreRequestTlv(FileStoreRequestBase, AbstractTlvBase):
 
     @classmethod
     def unpack(cls, data: bytes) -> FileStoreRequestTlv:
+        if len(data) < 2:
+            raise BytesTooShortError(2, len(data))
         cls._check_raw_tlv_field(data[0], FileStoreRequestTlv.TLV_TYPE)
         filestore_req = cls.__empty()
         cls._set_fields(filestore_req, data[2:])
@@ -472,6 +476,8 @@ class FileStoreResponseTlv(FileStoreRequestBase, AbstractTlvBase):
 
     @classmethod
     def unpack(cls, data: bytes) -> FileStoreResponseTlv:
+        if len(data) < 2:
+            raise BytesTooShortError(2, len(data))
         cls._check_raw_tlv_field(data[0], FileStoreResponseTlv.TLV_TYPE)
         filestore_reply = cls.__empty()
         cls._set_fields(filestore_reply, data[2:])
